@@ -3,6 +3,10 @@ import PfVerif.Proofs.C09Cert
 import PfVerif.Proofs.C09Trace
 import PfVerif.Proofs.C09Rep
 import PfVerif.Proofs.C09Scale1
+import PfVerif.Proofs.C09Adj
+import PfVerif.Proofs.C09Loop
+import PfVerif.Proofs.C09Topo
+import PfVerif.Proofs.C03Topo
 /-! # C09 — upscaling yields a valid coarse D8 network anchored on fine-grid outlet pixels
 
 All theorems are about the executable model `PfVerif/Model/C09.lean` of `pyflwdir/upscale.py` and quantify over
@@ -205,14 +209,11 @@ theorem eam_valid_iff_outlet (ds : Array Nat) (upa : Array Int) (ea : Array Bool
     have hlt : cds'[c]! < g.ncell := hcq ▸ g.cell_lt ds hg q hq.1
     exact ⟨⟨fun _ => hr, fun _ => by omega⟩, by omega⟩
 
-/-- **valid_iff_outlet, eam_plus (partial)** and what an unflagged cell guarantees.
-For `eam_plus` a coarse cell without outlet pixel is invalid and every link points inside the raster or is missing;
-a cell that `ihu_nextidx` does not flag is linked, inside its 3×3 neighbourhood, to the coarse cell whose outlet
-pixel is the first outlet pixel met downstream.
-*Not proved here* (full statement): `out[c] ≠ mv → cds[c] ≠ mv` for flagged cells — it needs the geometric fact that a
-flow path cannot reach a non-adjacent coarse cell without crossing an effective-area pixel (second-stage target);
-the certificate `upscaleOK` checks it on every implementation output instead. -/
-theorem eam_plus_valid_iff_outlet_partial (ds : Array Nat) (upa : Array Int) (ea : Array Bool) (g : Geo)
+/-- **what `ihu_nextidx` guarantees for an unflagged cell** (and the easy half of valid ⇔ outlet for `eam_plus`):
+a coarse cell without outlet pixel is invalid, every link points inside the raster or is missing, and a cell that
+`ihu_nextidx` does not flag is linked, inside its 3×3 neighbourhood, to the coarse cell whose outlet pixel is the
+first outlet pixel met downstream. The full equivalence is `eam_plus_valid_iff_outlet` below. -/
+theorem eam_plus_unflagged (ds : Array Nat) (upa : Array Int) (ea : Array Bool) (g : Geo)
     (cds out : Array Nat) (fix : List Nat) (hg : g.OK ds) (hwf : FineWF ds)
     (h : eamPlusModel ds upa ea g = some (cds, out, fix)) :
     ∀ c, c < g.ncell →
@@ -265,6 +266,377 @@ theorem eam_plus_valid_iff_outlet_partial (ds : Array Nat) (upa : Array Int) (ea
       rw [hcell]
       exact ⟨g.cell_lt ds hg q (hP q hq1).1, hq2, by rw [hq3]; exact hP q hq1, by rw [hq3]⟩
 
+/-! ## 8-neighbour adjacency by construction (dmm, eam, first pass of eam_plus / ihu)
+
+Hypotheses: the fine network links 8-neighbours (`FineD8`, true of every D8/LDD raster) and the effective-area map
+contains the centre cross of every coarse cell (`EaCross`: the `ri <= 0.5 or ci <= 0.5` clause of `effective_area`,
+re-checked by the driver on the map the implementation actually used). -/
+
+theorem inD8_self (c ncol : Nat) : inD8 c c ncol = true := by
+  rw [inD8_iff]; unfold StepAx; omega
+
+/-- **eam: every coarse link joins 8-neighbours** — the trace stops at the first effective-area pixel of another
+cell, and a D8 path cannot get past the centre cross of a neighbouring cell without stepping on it -/
+theorem eam_links_d8 (ds : Array Nat) (upa : Array Int) (ea : Array Bool) (g : Geo) (cds out : Array Nat)
+    (hg : g.OK ds) (hwf : FineWF ds) (hd8 : FineD8 ds g.subncol) (hea : EaCross g ea ds.size)
+    (h : eamModel ds upa ea g = some (cds, out)) :
+    ∀ c, c < g.ncell → cds[c]! ≠ g.ncell → inD8 c cds[c]! g.ncol = true := by
+  unfold eamModel at h
+  simp only [Option.map_eq_some_iff, Prod.mk.injEq] at h
+  obtain ⟨cds', hn, rfl, rfl⟩ := h
+  have hrep := repCells_ok ds upa (fun p => ea[p]!) g
+  have hrs : (eamRepcell ds upa ea g.subncol g.cs g.ncol g.ncell).size = g.ncell := hrep.1
+  obtain ⟨_, hf⟩ := collect_some _ _ _ hn
+  intro c hc hv
+  have hfc := hf c (by rw [hrs]; exact hc)
+  simp only at hfc
+  by_cases hr : (eamRepcell ds upa ea g.subncol g.cs g.ncol g.ncell)[c]! = ds.size
+  · rw [if_pos hr, hrs] at hfc
+    exact absurd (Option.some.inj hfc).symm hv
+  · rw [if_neg hr] at hfc
+    obtain ⟨hvp, hcell⟩ := hrep.2 c hc hr
+    obtain ⟨hn2, hgd⟩ := near2_of_cell g ds hg c _ hvp.1 hcell
+    obtain ⟨q, hq, hnq, hcq⟩ := eamTrace_near ds ea g c hg hwf hd8 hea _ _ _ hfc hvp hn2 hgd
+    rw [hcq]; exact near2_inD8 g ds hg c q hq.1 hnq
+
+/-- **eam_plus: valid ⇔ outlet (full) and every coarse link joins 8-neighbours.** A cell with an outlet pixel
+always gets a downstream cell: if the next outlet pixel (or pit) downstream is outside the 3×3 neighbourhood, the
+path has crossed an effective-area pixel before, and the first such pixel lies in the 3×3 neighbourhood. -/
+theorem eam_plus_valid_iff_outlet (ds : Array Nat) (upa : Array Int) (ea : Array Bool) (g : Geo)
+    (cds out : Array Nat) (fix : List Nat) (hg : g.OK ds) (hwf : FineWF ds) (hd8 : FineD8 ds g.subncol)
+    (hea : EaCross g ea ds.size) (h : eamPlusModel ds upa ea g = some (cds, out, fix)) :
+    ∀ c, c < g.ncell →
+      (cds[c]! ≠ g.ncell ↔ out[c]! ≠ ds.size) ∧
+      (out[c]! ≠ ds.size → cds[c]! < g.ncell ∧ inD8 c cds[c]! g.ncol = true) := by
+  have hown := eam_plus_outlets ds upa ea g cds out fix hwf h
+  have hpart := eam_plus_unflagged ds upa ea g cds out fix hg hwf h
+  unfold eamPlusModel at h
+  simp only at h
+  split at h
+  · cases h
+  · rename_i out' hout
+    simp only [Option.map_eq_some_iff, Prod.mk.injEq] at h
+    obtain ⟨r, hn, rfl, rfl, rfl⟩ := h
+    unfold ihuNextidx at hn
+    simp only [Option.map_eq_some_iff] at hn
+    obtain ⟨a, ha, rfl⟩ := hn
+    obtain ⟨hsa, hf⟩ := collect_some _ _ _ ha
+    have hso : out'.size = g.ncell := hown.size_out
+    intro c hc
+    have hca : c < a.size := by rw [hsa, hso]; exact hc
+    have hfc := hf c (hso ▸ hc)
+    have key : out'[c]! ≠ ds.size → (a.map (·.1))[c]! < g.ncell ∧ inD8 c (a.map (·.1))[c]! g.ncol = true := by
+      intro ho
+      rw [get!_map_fst' a c hca]
+      rw [if_neg ho] at hfc
+      simp only [Option.map_eq_some_iff] at hfc
+      obtain ⟨r, hr, hra⟩ := hfc
+      obtain ⟨hvo, hcell⟩ := hown.own c hc ho
+      obtain ⟨q, hq1, hq2, hq3⟩ := ihuNextTrace_near ds out' ea g c hg hwf hd8 hea _ _ _ _ hr hvo
+        (fun _ => near2_of_cell g ds hg c _ hvo.1 hcell) (fun q hq => by cases hq)
+      have hcq : a[c]!.1 = g.cell q := by rw [← hra, hq1]; rfl
+      rw [hcq]
+      exact ⟨g.cell_lt ds hg q hq2.1, hq3⟩
+    refine ⟨⟨fun hv => ?_, fun ho => Nat.ne_of_lt (key ho).1⟩, key⟩
+    intro ho
+    exact hv ((hpart c hc).1 ho)
+
+/-- a pixel at most one step outside the offset window of `dmm_nextidx` (doubled coordinates) -/
+def NearWin (subncol : Nat) (c : Int × Int × Nat) (q : Nat) : Prop :=
+  (2 * Int.ofNat (q / subncol) - c.1).natAbs ≤ c.2.2 + 2 ∧ (2 * Int.ofNat (q % subncol) - c.2.1).natAbs ≤ c.2.2 + 2
+
+/-- **dmm: every coarse link joins 8-neighbours** — the trace ends at the first pixel outside the offset window
+(a cell-sized window centred on a corner of the coarse cell; the cell itself for `cellsize == 1`), which is at most
+one pixel beyond the window and therefore in a neighbouring coarse cell -/
+theorem dmm_links_d8 (ds : Array Nat) (upa : Array Int) (g : Geo) (cds out : Array Nat)
+    (hg : g.OK ds) (hwf : FineWF ds) (hd8 : FineD8 ds g.subncol)
+    (h : dmmModel ds upa g = some (cds, out)) :
+    ∀ c, c < g.ncell → cds[c]! ≠ g.ncell → inD8 c cds[c]! g.ncol = true := by
+  unfold dmmModel at h
+  simp only [Option.map_eq_some_iff, Prod.mk.injEq] at h
+  obtain ⟨cds', hn, rfl, rfl⟩ := h
+  have hrep := repCells_ok ds upa (fun p => cellEdge p g.subncol g.cs) g
+  have hrs : (dmmExitcell ds upa g.subncol g.cs g.ncol g.ncell).size = g.ncell := hrep.1
+  obtain ⟨_, hf⟩ := collect_some _ _ _ hn
+  intro c hc hv
+  have hfc := hf c (by rw [hrs]; exact hc)
+  simp only at hfc
+  by_cases hr : (dmmExitcell ds upa g.subncol g.cs g.ncol g.ncell)[c]! = ds.size
+  · rw [if_pos hr, hrs] at hfc
+    exact absurd (Option.some.inj hfc).symm hv
+  · rw [if_neg hr] at hfc
+    obtain ⟨p0, hp0⟩ : ∃ p0, p0 = (dmmExitcell ds upa g.subncol g.cs g.ncol g.ncell)[c]! := ⟨_, rfl⟩
+    obtain ⟨hvp, hcell⟩ : ValidPx ds p0 ∧ g.cell p0 = c := by rw [hp0]; exact hrep.2 c hc hr
+    rw [← hp0] at hfc
+    obtain ⟨ctr, hctr⟩ : ∃ ctr, ctr = dmmCentre g.subncol g.cs g.ncol c p0 := ⟨_, rfl⟩
+    rw [← hctr] at hfc
+    have hN : ∀ p, ValidPx ds p → dmmOutside g.subncol ctr.2.2 ctr.1 ctr.2.1 p = false →
+        NearWin g.subncol ctr ds[p]! := by
+      intro p hp ho
+      obtain ⟨s1, s2⟩ := (inD8_iff _ _ _).mp (hd8 p hp.1 hp.2)
+      simp only [dmmOutside, Bool.or_eq_false_iff, decide_eq_false_iff_not, Int.ofNat_eq_natCast] at ho
+      unfold NearWin StepAx at *
+      simp only [Int.ofNat_eq_natCast]
+      omega
+    obtain ⟨q, hq, hqn, hrq⟩ := dmmTrace_near ds g.cell _ c hwf (NearWin g.subncol ctr) hN _ _ _ _ hfc hvp
+      hcell.symm (Or.inl hcell)
+    rw [hrq]
+    rcases hqn with hqc | hqn
+    · rw [hqc]; exact inD8_self c g.ncol
+    · rw [inD8_iff, g.cell_row ds hg q hq.1, g.cell_col ds hg q hq.1]
+      have hsc : 0 < g.subncol := g.subncol_pos ds hg q hq.1
+      have e1 : ctr.1 = if g.cs = 1 then 2 * Int.ofNat (c / g.ncol)
+          else 2 * Int.ofNat ((c / g.ncol + (2 * ((p0 / g.subncol) % g.cs)) / g.cs) * g.cs) - 1 := by
+        rw [hctr]; unfold dmmCentre; split <;> rfl
+      have e2 : ctr.2.1 = if g.cs = 1 then 2 * Int.ofNat (c % g.ncol)
+          else 2 * Int.ofNat ((c % g.ncol + (2 * ((p0 % g.subncol) % g.cs)) / g.cs) * g.cs) - 1 := by
+        rw [hctr]; unfold dmmCentre; split <;> rfl
+      have e3 : ctr.2.2 = if g.cs = 1 then 0 else g.cs := by
+        rw [hctr]; unfold dmmCentre; split <;> rfl
+      obtain ⟨n1, n2⟩ := hqn
+      rw [e1, e3] at n1
+      rw [e2, e3] at n2
+      have a := win_axis g.cs (c / g.ncol) ((p0 / g.subncol) % g.cs) (q / g.subncol) hg.cs (Nat.mod_lt _ hg.cs) n1
+      have b := win_axis g.cs (c % g.ncol) ((p0 % g.subncol) % g.cs) (q % g.subncol) hg.cs (Nat.mod_lt _ hg.cs) n2
+      unfold StepAx; omega
+
+/-! ## loop-freeness by construction (dmm, eam)
+
+Hypothesis `UpaMono`: the upstream area strictly increases along the fine network (true of the default upstream
+area and of every accumulation of positive cell areas; re-checked by the driver on the array actually used).
+With an arbitrary user array in place of an upstream area the coarse network of these methods can contain loops. -/
+
+/-- **eam: the coarse network is loop-free** — a link that is not a self-link leads to a cell whose representative
+pixel has strictly larger upstream area (the trace ends on a candidate pixel of that cell, downstream of the
+representative pixel it started from) -/
+theorem eam_loopfree (ds : Array Nat) (upa : Array Int) (ea : Array Bool) (g : Geo) (cds out : Array Nat)
+    (hg : g.OK ds) (hwf : FineWF ds) (hm : UpaMono ds upa) (h : eamModel ds upa ea g = some (cds, out)) :
+    ∀ c, c < g.ncell → cds[c]! ≠ g.ncell →
+      ∃ k, iterA cds k c < g.ncell ∧ cds[iterA cds k c]! = iterA cds k c := by
+  have hvi := eam_valid_iff_outlet ds upa ea g cds out hg hwf h
+  have hown := eam_outlets ds upa ea g cds out h
+  unfold eamModel at h
+  simp only [Option.map_eq_some_iff, Prod.mk.injEq] at h
+  obtain ⟨cds', hn, rfl, rfl⟩ := h
+  obtain ⟨hrs, hspec⟩ := repCells_spec ds upa (fun p => ea[p]!) g.cell g.ncell
+  obtain ⟨hcs, hf⟩ := collect_some _ _ _ hn
+  have hsz : cds'.size = g.ncell := hown.size_cds
+  obtain ⟨rep, hrepdef⟩ : ∃ rep, rep = eamRepcell ds upa ea g.subncol g.cs g.ncol g.ncell := ⟨_, rfl⟩
+  rw [← hrepdef] at hvi hown hf hn hcs
+  have hspec' : ∀ c, c < g.ncell →
+      (rep[c]! = ds.size ∧ ∀ j, j < ds.size → IsCand ds (fun p => ea[p]!) j → g.cell j = c → upa[j]! ≤ 0) ∨
+      (rep[c]! < ds.size ∧ IsCand ds (fun p => ea[p]!) rep[c]! ∧ g.cell rep[c]! = c ∧ 0 < upa[rep[c]!]! ∧
+        (∀ j, j < ds.size → IsCand ds (fun p => ea[p]!) j → g.cell j = c → upa[j]! ≤ upa[rep[c]!]!) ∧
+        (∀ j, j < rep[c]! → IsCand ds (fun p => ea[p]!) j → g.cell j = c → upa[j]! < upa[rep[c]!]!)) := by
+    rw [hrepdef]; exact hspec
+  -- what one link looks like
+  have link : ∀ c, c < g.ncell → cds'[c]! ≠ g.ncell →
+      cds'[c]! < g.ncell ∧ cds'[cds'[c]!]! ≠ g.ncell ∧ (cds'[c]! ≠ c → upa[rep[c]!]! < upa[rep[cds'[c]!]!]!) := by
+    intro c hc hv
+    have hr : rep[c]! ≠ ds.size := (hvi c hc).1.mp hv
+    have hfc := hf c (by rw [hown.size_out]; exact hc)
+    simp only at hfc
+    rw [if_neg hr] at hfc
+    obtain ⟨hvp, hcell⟩ := hown.own c hc hr
+    have hpos : 0 < upa[rep[c]!]! := by
+      rcases hspec' c hc with ⟨a, _⟩ | ⟨_, _, _, d, _⟩
+      · exact absurd a hr
+      · exact d
+    obtain ⟨q, hq, hrq, hcand, hlq⟩ := eamTrace_meas ds ea g.cell c upa hwf hm rep[c]! _ _ _ hfc hvp (Or.inl rfl)
+    have hc1 : cds'[c]! < g.ncell := hrq ▸ g.cell_lt ds hg q hq.1
+    have hqc : IsCand ds (fun p => ea[p]!) q := ⟨hq.2, hcand⟩
+    have hqpos : 0 < upa[q]! := by
+      rcases hlq with e | e
+      · rw [e]; exact hpos
+      · omega
+    rcases hspec' cds'[c]! hc1 with ⟨_, b⟩ | ⟨a, _, _, _, e, _⟩
+    · have := b q hq.1 hqc hrq.symm; omega
+    · refine ⟨hc1, (hvi _ hc1).1.mpr (Nat.ne_of_lt a), fun hne => ?_⟩
+      have hle := e q hq.1 hqc hrq.symm
+      rcases hlq with e' | e'
+      · exact absurd (by rw [hrq, e', hcell]) hne
+      · omega
+  have := loopfree_of_measure cds' (fun c => upa[rep[c]!]!)
+    (fun c hc hv => by
+      rw [hsz] at hc hv ⊢
+      exact ⟨(link c hc hv).1, (link c hc hv).2.1⟩)
+    (fun c hc hv hp => by
+      rw [hsz] at hc hv
+      exact (link c hc hv).2.2 hp)
+  intro c hc hv
+  obtain ⟨k, hk1, hk2⟩ := this c (hsz ▸ hc) (hsz ▸ hv)
+  exact ⟨k, hsz ▸ hk1, hk2⟩
+
+/-- **dmm: the coarse network is loop-free** — the trace from an exit pixel ends in the start cell (self-link) or
+in a cell that it entered through an edge pixel, downstream of the exit pixel; that cell's own exit pixel has at
+least the upstream area of this edge pixel -/
+theorem dmm_loopfree (ds : Array Nat) (upa : Array Int) (g : Geo) (cds out : Array Nat)
+    (hg : g.OK ds) (hwf : FineWF ds) (hd8 : FineD8 ds g.subncol) (hm : UpaMono ds upa)
+    (h : dmmModel ds upa g = some (cds, out)) :
+    ∀ c, c < g.ncell → cds[c]! ≠ g.ncell →
+      ∃ k, iterA cds k c < g.ncell ∧ cds[iterA cds k c]! = iterA cds k c := by
+  have hvi := dmm_valid_iff_outlet ds upa g cds out hg hwf h
+  have hown := dmm_outlets ds upa g cds out h
+  unfold dmmModel at h
+  simp only [Option.map_eq_some_iff, Prod.mk.injEq] at h
+  obtain ⟨cds', hn, rfl, rfl⟩ := h
+  obtain ⟨hrs, hspec⟩ := repCells_spec ds upa (fun p => cellEdge p g.subncol g.cs) g.cell g.ncell
+  obtain ⟨hcs, hf⟩ := collect_some _ _ _ hn
+  have hsz : cds'.size = g.ncell := hown.size_cds
+  obtain ⟨rep, hrepdef⟩ : ∃ rep, rep = dmmExitcell ds upa g.subncol g.cs g.ncol g.ncell := ⟨_, rfl⟩
+  rw [← hrepdef] at hvi hown hf hn hcs
+  have hspec' : ∀ c, c < g.ncell →
+      (rep[c]! = ds.size ∧ ∀ j, j < ds.size → IsCand ds (fun p => cellEdge p g.subncol g.cs) j → g.cell j = c →
+        upa[j]! ≤ 0) ∨
+      (rep[c]! < ds.size ∧ IsCand ds (fun p => cellEdge p g.subncol g.cs) rep[c]! ∧ g.cell rep[c]! = c ∧
+        0 < upa[rep[c]!]! ∧
+        (∀ j, j < ds.size → IsCand ds (fun p => cellEdge p g.subncol g.cs) j → g.cell j = c →
+          upa[j]! ≤ upa[rep[c]!]!) ∧
+        (∀ j, j < rep[c]! → IsCand ds (fun p => cellEdge p g.subncol g.cs) j → g.cell j = c →
+          upa[j]! < upa[rep[c]!]!)) := by
+    rw [hrepdef]; exact hspec
+  have link : ∀ c, c < g.ncell → cds'[c]! ≠ g.ncell →
+      cds'[c]! < g.ncell ∧ cds'[cds'[c]!]! ≠ g.ncell ∧ (cds'[c]! ≠ c → upa[rep[c]!]! < upa[rep[cds'[c]!]!]!) := by
+    intro c hc hv
+    have hr : rep[c]! ≠ ds.size := (hvi c hc).1.mp hv
+    have hfc := hf c (by rw [hown.size_out]; exact hc)
+    simp only at hfc
+    rw [if_neg hr] at hfc
+    obtain ⟨hvp, hcell⟩ := hown.own c hc hr
+    have hpos : 0 < upa[rep[c]!]! := by
+      rcases hspec' c hc with ⟨a, _⟩ | ⟨_, _, _, d, _⟩
+      · exact absurd a hr
+      · exact d
+    have hres := dmmTrace_meas ds g _ c upa hg hwf hd8 hm rep[c]! _ _ _ _ hfc hvp hcell.symm (Or.inl rfl)
+      (Or.inl hcell)
+    rcases hres with hself | ⟨e, he1, he2, he3, he4⟩
+    · rw [hself]
+      exact ⟨hc, hv, fun hne => absurd rfl hne⟩
+    · have hc1 : cds'[c]! < g.ncell := he2 ▸ g.cell_lt ds hg e he1.1
+      have hec : IsCand ds (fun p => cellEdge p g.subncol g.cs) e := ⟨he1.2, Or.inr he3⟩
+      rcases hspec' cds'[c]! hc1 with ⟨_, b⟩ | ⟨a, _, _, _, e', _⟩
+      · have := b e he1.1 hec he2; omega
+      · refine ⟨hc1, (hvi _ hc1).1.mpr (Nat.ne_of_lt a), fun _ => ?_⟩
+        have hle := e' e he1.1 hec he2
+        omega
+  have := loopfree_of_measure cds' (fun c => upa[rep[c]!]!)
+    (fun c hc hv => by
+      rw [hsz] at hc hv ⊢
+      exact ⟨(link c hc hv).1, (link c hc hv).2.1⟩)
+    (fun c hc hv hp => by
+      rw [hsz] at hc hv
+      exact (link c hc hv).2.2 hp)
+  intro c hc hv
+  obtain ⟨k, hk1, hk2⟩ := this c (hsz ▸ hc) (hsz ▸ hv)
+  exact ⟨k, hsz ▸ hk1, hk2⟩
+
+/-- **eam_plus (first pass of ihu): the coarse network is loop-free** — a link that is not a self-link leads to
+a cell whose outlet pixel has strictly larger upstream area: the link is derived from the next outlet pixel
+downstream, or from a pit / effective-area pixel downstream, which is a candidate of its cell's representative
+pixel, and the outlet pixel of a cell lies downstream of its representative pixel -/
+theorem eam_plus_loopfree (ds : Array Nat) (upa : Array Int) (ea : Array Bool) (g : Geo)
+    (cds out : Array Nat) (fix : List Nat) (hg : g.OK ds) (hwf : FineWF ds) (hd8 : FineD8 ds g.subncol)
+    (hea : EaCross g ea ds.size) (hm : UpaMono ds upa) (h : eamPlusModel ds upa ea g = some (cds, out, fix)) :
+    ∀ c, c < g.ncell → cds[c]! ≠ g.ncell →
+      ∃ k, iterA cds k c < g.ncell ∧ cds[iterA cds k c]! = iterA cds k c := by
+  have hown := eam_plus_outlets ds upa ea g cds out fix hwf h
+  have hvi := eam_plus_valid_iff_outlet ds upa ea g cds out fix hg hwf hd8 hea h
+  unfold eamPlusModel at h
+  simp only at h
+  split at h
+  · cases h
+  · rename_i out' hout
+    simp only [Option.map_eq_some_iff, Prod.mk.injEq] at h
+    obtain ⟨r, hn, rfl, rfl, rfl⟩ := h
+    obtain ⟨rep, hrepdef⟩ : ∃ rep, rep = eamRepcell ds upa ea g.subncol g.cs g.ncol g.ncell := ⟨_, rfl⟩
+    rw [← hrepdef] at hout
+    have hrep : RepOK ds g rep := by rw [hrepdef]; exact repCells_ok ds upa (fun p => ea[p]!) g
+    have hspec : ∀ c, c < g.ncell →
+        (rep[c]! = ds.size ∧ ∀ j, j < ds.size → IsCand ds (fun p => ea[p]!) j → g.cell j = c → upa[j]! ≤ 0) ∨
+        (rep[c]! < ds.size ∧ IsCand ds (fun p => ea[p]!) rep[c]! ∧ g.cell rep[c]! = c ∧ 0 < upa[rep[c]!]! ∧
+          (∀ j, j < ds.size → IsCand ds (fun p => ea[p]!) j → g.cell j = c → upa[j]! ≤ upa[rep[c]!]!) ∧
+          (∀ j, j < rep[c]! → IsCand ds (fun p => ea[p]!) j → g.cell j = c → upa[j]! < upa[rep[c]!]!)) := by
+      rw [hrepdef]; exact (repCells_spec ds upa (fun p => ea[p]!) g.cell g.ncell).2
+    obtain ⟨hso, ho⟩ := outlet_in_cell ds rep out' g hwf hrep hout
+    unfold ihuNextidx at hn
+    simp only [Option.map_eq_some_iff] at hn
+    obtain ⟨a, ha, rfl⟩ := hn
+    obtain ⟨hsa, hf⟩ := collect_some _ _ _ ha
+    have hsz : (a.map (·.1)).size = g.ncell := hown.size_cds
+    -- the outlet pixel of a cell with a representative pixel has at least its (positive) upstream area
+    have hout_upa : ∀ c, c < g.ncell → rep[c]! ≠ ds.size →
+        out'[c]! ≠ ds.size ∧ upa[rep[c]!]! ≤ upa[out'[c]!]! ∧ 0 < upa[out'[c]!]! := by
+      intro c hc hr
+      obtain ⟨hv, _, _, k, hk⟩ := (ho c hc).2 hr
+      have hle := (upa_iter_le ds upa hwf hm k rep[c]! (hrep.2 c hc hr).1).2
+      rw [← hk] at hle
+      have hpos : 0 < upa[rep[c]!]! := by
+        rcases hspec c hc with ⟨x, _⟩ | ⟨_, _, _, d, _⟩
+        · exact absurd x hr
+        · exact d
+      exact ⟨Nat.ne_of_lt hv.1, hle, by omega⟩
+    have link : ∀ c, c < g.ncell → (a.map (·.1))[c]! ≠ g.ncell →
+        (a.map (·.1))[c]! < g.ncell ∧ (a.map (·.1))[(a.map (·.1))[c]!]! ≠ g.ncell ∧
+        ((a.map (·.1))[c]! ≠ c → upa[out'[c]!]! < upa[out'[(a.map (·.1))[c]!]!]!) := by
+      intro c hc hv
+      have ho' : out'[c]! ≠ ds.size := (hvi c hc).1.mp hv
+      have hlt := ((hvi c hc).2 ho').1
+      have hca : c < a.size := by rw [hsa, hso]; exact hc
+      have hfc := hf c (hso ▸ hc)
+      rw [if_neg ho'] at hfc
+      simp only [Option.map_eq_some_iff] at hfc
+      obtain ⟨r, hr, hra⟩ := hfc
+      obtain ⟨hvo, hcell⟩ := hown.own c hc ho'
+      have hrc : rep[c]! ≠ ds.size := fun e => ho' ((ho c hc).1 e)
+      have hp0pos := (hout_upa c hc hrc).2.2
+      rw [get!_map_fst' a c hca] at hlt ⊢
+      cases hr1 : r.1 with
+      | none =>
+        have : a[c]!.1 = out'.size := by rw [← hra, hr1]
+        rw [this, hso] at hlt; omega
+      | some q =>
+        have hcq : a[c]!.1 = g.cell q := by rw [← hra, hr1]; rfl
+        obtain ⟨hq, hkind, hl⟩ := ihuNextTrace_meas ds out' ea g.cell g.ncol c upa hwf hm out'[c]! _ _ _ _ hr hvo
+          (Or.inl rfl) (fun q hq => by cases hq) q hr1
+        rw [hcq] at hlt ⊢
+        have hne_of : g.cell q ≠ c → upa[out'[c]!]! < upa[q]! := by
+          intro hne
+          rcases hl with ⟨e, _⟩ | e
+          · exact absurd (by rw [e, hcell]) hne
+          · exact e
+        have hqpos : 0 < upa[q]! := by
+          rcases hl with ⟨e, _⟩ | e
+          · rw [e]; exact hp0pos
+          · omega
+        -- the outlet pixel of the target cell has at least the upstream area of q
+        have htarget : out'[g.cell q]! ≠ ds.size ∧ upa[q]! ≤ upa[out'[g.cell q]!]! := by
+          by_cases hoq : out'[g.cell q]! = q
+          · rw [hoq]; exact ⟨Nat.ne_of_lt hq.1, Int.le_refl _⟩
+          · have hcand : IsCand ds (fun p => ea[p]!) q := by
+              refine ⟨hq.2, ?_⟩
+              rcases hkind with e | e | e
+              · exact absurd e hoq
+              · exact Or.inl e
+              · exact Or.inr e
+            rcases hspec (g.cell q) hlt with ⟨_, b⟩ | ⟨x, _, _, _, e, _⟩
+            · have := b q hq.1 hcand rfl; omega
+            · have h1 := e q hq.1 hcand rfl
+              have h2 := hout_upa (g.cell q) hlt (Nat.ne_of_lt x)
+              exact ⟨h2.1, by omega⟩
+        refine ⟨hlt, (hvi _ hlt).1.mpr htarget.1, fun hne => ?_⟩
+        have := hne_of hne
+        omega
+    have := loopfree_of_measure (a.map (·.1)) (fun c => upa[out'[c]!]!)
+      (fun c hc hv => by
+        rw [hsz] at hc hv ⊢
+        exact ⟨(link c hc hv).1, (link c hc hv).2.1⟩)
+      (fun c hc hv hp => by
+        rw [hsz] at hc hv
+        exact (link c hc hv).2.2 hp)
+    intro c hc hv
+    obtain ⟨k, hk1, hk2⟩ := this c (hsz ▸ hc) (hsz ▸ hv)
+    exact ⟨k, hsz ▸ hk1, hk2⟩
+
 /-! ## the certificate checker evaluated on the implementation's output (all four methods) -/
 
 /-- the part of the property that concerns the returned coarse network and its outlet pixels -/
@@ -314,6 +686,90 @@ theorem upscaleOK_sound (ds : Array Nat) (g : Geo) (cds out : Array Nat) (w : Up
   · intro c hc hv
     obtain ⟨p, h1, h2, h3⟩ := okCellValid_sound _ _ _ _ hcv c (hso' ▸ hc) hv
     exact ⟨p, ⟨h1, h2⟩, h3⟩
+
+/-- assembling `UpscaleValid` from the by-construction facts of a non-iterative method -/
+theorem UpscaleValid.of_parts {ds : Array Nat} {g : Geo} {cds out : Array Nat} (hown : OutletsOwnCell ds g cds out)
+    (hvi : ∀ c, c < g.ncell → (cds[c]! ≠ g.ncell ↔ out[c]! ≠ ds.size) ∧ cds[c]! ≤ g.ncell)
+    (hd8 : ∀ c, c < g.ncell → cds[c]! ≠ g.ncell → inD8 c cds[c]! g.ncol = true)
+    (hlf : ∀ c, c < g.ncell → cds[c]! ≠ g.ncell →
+      ∃ k, iterA cds k c < g.ncell ∧ cds[iterA cds k c]! = iterA cds k c) : UpscaleValid ds g cds out where
+  size_cds := hown.size_cds
+  size_out := hown.size_out
+  d8 := fun c hc hv => by
+    have h := hd8 c hc hv
+    simp only [inD8, Bool.and_eq_true, decide_eq_true_eq] at h
+    have := (hvi c hc).2
+    exact ⟨by omega, h.1, h.2⟩
+  loopfree := hlf
+  valid_iff := fun c hc => (hvi c hc).1
+  outlet_valid := fun c hc hv => (hown.own c hc hv).1
+  distinct := hown.distinct
+  cell_valid := fun c hc hv => ⟨out[c]!, (hown.own c hc hv).1, (hown.own c hc hv).2⟩
+
+/-- **eam satisfies the property by construction** (no per-run certificate needed): on a well-formed 8-neighbour
+fine network with a strictly increasing upstream area, whenever the model of `eam` returns, the coarse network has
+the right size, 8-neighbour links, no loops, a valid cell exactly where an outlet is reported, and distinct valid
+outlet pixels each inside its own coarse cell -/
+theorem eam_valid (ds : Array Nat) (upa : Array Int) (ea : Array Bool) (g : Geo) (cds out : Array Nat)
+    (hg : g.OK ds) (hwf : FineWF ds) (hd8 : FineD8 ds g.subncol) (hea : EaCross g ea ds.size)
+    (hm : UpaMono ds upa) (h : eamModel ds upa ea g = some (cds, out)) :
+    UpscaleValid ds g cds out ∧ OutletsOwnCell ds g cds out :=
+  ⟨UpscaleValid.of_parts (eam_outlets ds upa ea g cds out h) (eam_valid_iff_outlet ds upa ea g cds out hg hwf h)
+    (eam_links_d8 ds upa ea g cds out hg hwf hd8 hea h) (eam_loopfree ds upa ea g cds out hg hwf hm h),
+   eam_outlets ds upa ea g cds out h⟩
+
+/-- **dmm satisfies the property by construction** -/
+theorem dmm_valid (ds : Array Nat) (upa : Array Int) (g : Geo) (cds out : Array Nat)
+    (hg : g.OK ds) (hwf : FineWF ds) (hd8 : FineD8 ds g.subncol) (hm : UpaMono ds upa)
+    (h : dmmModel ds upa g = some (cds, out)) :
+    UpscaleValid ds g cds out ∧ OutletsOwnCell ds g cds out :=
+  ⟨UpscaleValid.of_parts (dmm_outlets ds upa g cds out h) (dmm_valid_iff_outlet ds upa g cds out hg hwf h)
+    (dmm_links_d8 ds upa g cds out hg hwf hd8 h) (dmm_loopfree ds upa g cds out hg hwf hd8 hm h),
+   dmm_outlets ds upa g cds out h⟩
+
+/-- **eam_plus (= the first pass of ihu) satisfies the property by construction** -/
+theorem eam_plus_valid (ds : Array Nat) (upa : Array Int) (ea : Array Bool) (g : Geo) (cds out : Array Nat)
+    (fix : List Nat) (hg : g.OK ds) (hwf : FineWF ds) (hd8 : FineD8 ds g.subncol) (hea : EaCross g ea ds.size)
+    (hm : UpaMono ds upa) (h : eamPlusModel ds upa ea g = some (cds, out, fix)) :
+    UpscaleValid ds g cds out ∧ OutletsOwnCell ds g cds out := by
+  have hvi := eam_plus_valid_iff_outlet ds upa ea g cds out fix hg hwf hd8 hea h
+  have hun := eam_plus_unflagged ds upa ea g cds out fix hg hwf h
+  have hown := eam_plus_outlets ds upa ea g cds out fix hwf h
+  exact ⟨UpscaleValid.of_parts hown (fun c hc => ⟨(hvi c hc).1, (hun c hc).2.1⟩)
+    (fun c hc hv => ((hvi c hc).2 ((hvi c hc).1.mp hv)).2)
+    (eam_plus_loopfree ds upa ea g cds out fix hg hwf hd8 hea hm h), hown⟩
+
+/-- **the hypotheses of the by-construction theorems are decidable** and are evaluated by the driver on the inputs
+of every case (`hyp.*` outputs of the `upscale` op): accepted ⇒ the hypothesis holds -/
+theorem hyp_checks_sound (ds : Array Nat) (upa : Array Int) (ea : Array Bool) (g : Geo) :
+    (chkFineWF ds = true → FineWF ds) ∧ (chkFineD8 ds g.subncol = true → FineD8 ds g.subncol) ∧
+    (chkEaCross g ea ds.size = true → EaCross g ea ds.size) ∧ (chkUpaMono ds upa = true → UpaMono ds upa) := by
+  refine ⟨fun h p hp hv => ?_, fun h p hp hv => ?_, fun h p hp hc => ?_, fun h p hp hnp => ?_⟩
+  · have := (allCells_iff _ _).mp h p hp
+    simp only [Bool.or_eq_true, beq_iff_eq, Bool.and_eq_true, decide_eq_true_eq, bne_iff_ne, ne_eq] at this
+    rcases this with h0 | h1
+    · exact absurd h0 hv
+    · exact h1
+  · have := (allCells_iff _ _).mp h p hp
+    simp only [Bool.or_eq_true, beq_iff_eq] at this
+    rcases this with h0 | h1
+    · exact absurd h0 hv
+    · exact h1
+  · have := (allCells_iff _ _).mp h p hp
+    simp only [centreAxB, Bool.or_eq_true, Bool.not_eq_true', Bool.or_eq_false_iff, Bool.and_eq_false_iff,
+      decide_eq_false_iff_not, Bool.and_eq_true, decide_eq_true_eq] at this
+    rcases this with h0 | h1
+    · unfold CentreAx at hc
+      rcases hc with hc | hc
+      · rcases h0.1 with a | a <;> omega
+      · rcases h0.2 with a | a <;> omega
+    · exact h1
+  · have := (allCells_iff _ _).mp h p hp.1
+    simp only [Bool.or_eq_true, beq_iff_eq, decide_eq_true_eq] at this
+    rcases this with (h0 | h0) | h1
+    · exact absurd h0 hp.2
+    · exact absurd h0 hnp
+    · exact h1
 
 /-- **own-cell check** (required of dmm, eam, eam_plus outputs): accepted ⇒ every outlet pixel lies in its own cell -/
 theorem ownCell_sound (ds : Array Nat) (g : Geo) (out : Array Nat) (h : okOwnCell ds out g.cell = true) :
@@ -442,7 +898,7 @@ theorem scale_one_dmm (ds : Array Nat) (upa : Array Int) (g : Geo) (hg : g.OK ds
         g.subncol g.cs g.ncol = some cds ∧ cds.size = ds.size ∧ True := by
       unfold dmmNextidx
       rw [hrs, hne]
-      exact ⟨#[], by simp [collect], by simp [hne], trivial⟩
+      exact ⟨#[], by simp [collect], by simp, trivial⟩
     exact ⟨cds, _, by unfold dmmModel; simp only [h2, Option.map_some], h3, hrs, fun c hc => by omega⟩
   · have hn : 0 < g.subncol := g.subncol_pos ds hg 0 (by omega)
     obtain ⟨cds, h2, h3, h4⟩ := dmmNextidx_one ds _ g hn h1 hwf hrs hrep hno2
@@ -470,6 +926,19 @@ theorem scale_one_eam_plus (ds : Array Nat) (upa : Array Int) (ea : Array Bool) 
 /-- every valid fine cell reaches a pit within `ds.size` steps (true of every loop-free network; the rank of a
 cell is such a `k`) -/
 def ReachesPit (ds : Array Nat) : Prop := ∀ p, ValidPx ds p → ∃ k, k ≤ ds.size ∧ PitAt ds k p
+
+/-- **ReachesPit from a downstream-first order**: if the valid cells of the fine network are exactly covered by a
+downstream-first order `seq` (`Topo`, what C03 establishes for the library's cell order), every valid cell reaches a
+pit within `ds.size` steps — so the totality theorems below hold for every loop-free network -/
+theorem reachesPit_of_topo (ds : Array Nat) (seq : List Nat) (htopo : Topo ds seq) (hb : ∀ i ∈ seq, i < ds.size)
+    (hcover : ∀ p, ValidPx ds p → p ∈ seq) : ReachesPit ds :=
+  fun p hp => htopo.pitAt_le_size hb p (hcover p hp)
+
+/-- executable form: the cell order the implementation used, accepted by `isTopo` (C03) and covering all valid
+cells, yields `ReachesPit` -/
+theorem reachesPit_of_isTopo (ds : Array Nat) (seq : List Nat) (h : isTopo ds seq = true)
+    (hcover : ∀ p, ValidPx ds p → p ∈ seq) : ReachesPit ds :=
+  reachesPit_of_topo ds seq (isTopo_sound' ds seq h).1 (isTopo_sound' ds seq h).2 hcover
 
 /-- **nextidx_total, dmm**: on a loop-free fine network no trace of `dmm` runs out of fuel -/
 theorem dmm_total (ds : Array Nat) (upa : Array Int) (g : Geo) (hr : ReachesPit ds) :
@@ -569,6 +1038,19 @@ example : ReachesPit exDs := by
   have h : ∀ p, p < 25 → exDs[p]! ≠ 25 → ∃ k, k ≤ 25 ∧ exDs[iterA exDs k p]! = iterA exDs k p := by decide +kernel
   intro p hp
   exact h p hp.1 hp.2
+example : ReachesPit exDs :=
+  reachesPit_of_isTopo exDs [3, 12, 9, 6, 7, 8, 13, 16, 0, 1, 5, 10, 2, 14, 11, 15, 17, 20, 22, 23, 21]
+    (by decide +kernel) (by
+      have h : ∀ p, p < 25 → exDs[p]! ≠ 25 →
+          p ∈ [3, 12, 9, 6, 7, 8, 13, 16, 0, 1, 5, 10, 2, 14, 11, 15, 17, 20, 22, 23, 21] := by decide +kernel
+      exact fun p hp => h p hp.1 hp.2)
+-- the hypotheses of the by-construction theorems (eam_valid, dmm_valid, eam_plus_valid) hold for this input
+example : chkFineWF exDs = true ∧ chkFineD8 exDs exG.subncol = true ∧ chkEaCross exG exEa exDs.size = true ∧
+    chkUpaMono exDs exUpa = true := by decide +kernel
+-- and the centre-cross hypothesis is not vacuous: at scale 5 an all-false map is rejected, the real one has holes
+example : chkEaCross ⟨5, 5, 5⟩ (Array.replicate 25 false) 25 = false := by decide +kernel
+example : chkEaCross ⟨5, 5, 5⟩ #[false, false, true, false, false, false, true, true, true, false, true, true, true,
+    true, true, false, true, true, true, false, false, false, true, false, false] 25 = true := by decide +kernel
 -- shape_ceil / cell_of_pixel: 5×5 at scale 2 is 3×3; pixel 14 = (row 2, col 4) lies in coarse cell 5 = (1, 2)
 example : exG.nrow = 3 ∧ exG.ncol = 3 ∧ exG.cell 14 = 5 ∧ exG.cell 24 = 8 := by decide
 -- exit_in_cell / rep_in_cell: exit and representative pixels (cell 8 has none)
